@@ -1,7 +1,7 @@
 (* C08 — static file responses return exactly the requested bytes (range arithmetic). *)
 From Coq Require Import String.
 From Coq Require Import List Strings.Byte NArith ZArith Bool.
-Require Import Bytes Show Res Tables Range RangeProofs DecProofs.
+Require Import Bytes Show Res Tables Range RangeProofs DecProofs FsSliceProofs.
 Import ListNotations.
 Open Scope Z_scope.
 
@@ -34,6 +34,18 @@ Print Assumptions C08_range_rfc_suffix.
 Theorem C08_uint_roundtrip : forall n : Z, 0 <= n < two63 -> parse_uint (show_Z n) = Some n.
 Proof. exact parse_uint_show. Qed.
 Print Assumptions C08_uint_roundtrip.
+
+(* For EVERY file content and EVERY Range header the handler accepts: the bytes streamed (UpdateByteRange, then
+   end-start+1 bytes) are exactly bytes start..end of the file, their number is the Content-Length the handler
+   sets, and the Content-Range "bytes start-end/len" renders without a panic. *)
+Theorem C08_partial_content_is_the_slice : forall (f r : bs) (a b : Z),
+  parse_byte_range r (Z.of_nat (length f)) = Some (a, b) ->
+  let body := file_slice f a b in
+  Z.of_nat (length body) = (b - a + 1)%Z /\
+  (forall i, (i < length body)%nat -> nth_error body i = nth_error f (Z.to_nat a + i)) /\
+  exists cr, set_content_range a b (Z.of_nat (length f)) = Ok cr.
+Proof. exact range_slice_consistent. Qed.
+Print Assumptions C08_partial_content_is_the_slice.
 
 Example C08_nonvacuous :
   parse_byte_range (B "bytes=2-99") 5 = Some (2, 4) /\ parse_byte_range (B "bytes=-0") 5 = None /\
